@@ -2,7 +2,7 @@
 # Mutation self-test: applies every seeded change (seeded/*/patch.diff) to /repo in turn, runs the check that is supposed to
 # catch it (seeded/*/check.txt: property, --only filter), restores /repo, and prints a detection table.
 cd /verif
-for d in seeded/*/; do
+for d in seeded/[A-Z]*/; do
   name=$(basename $d)
   prop=$(sed -n 1p $d/check.txt); only=$(sed -n 2p $d/check.txt)
   git -C /repo apply /verif/$d/patch.diff || { echo "$name: patch does not apply"; continue; }
